@@ -130,7 +130,7 @@ def units(tier, seed):
                 continue
             if tier == "quick" and s.get("order", 4) > 16 and not (nn % b == 0 and b in (5, 6, 8) and label in ("golay(24,12)", "bch(15,7),left", "rm(1,4)", "repetition(5)", "repetition(6)")):
                 continue
-            out.append({"unit": f"{label}+{dec}+{modems.cfg(s)}", "code": spec, "label": label, "decoder": dec, "soft": soft, "modem": s, "cost": 1 + nn / 8 + s.get("order", 4) / 32})
+            out.append({"unit": f"{label}+{dec}+{modems.cfg(s)}", "code": spec, "label": label, "decoder": dec, "soft": soft, "modem": s, "cost": 1 + nn / 8 + s.get("order", 4) / 32, "group": f"{dec}:{nn}:{s['scheme']}:{s.get('order', 0)}"})
     return out
 
 
